@@ -12,9 +12,11 @@ NAMES_OF = {"owner": ["a.x", "t"], "owner-csum": ["c", "top"]}
 
 def world():
     return World(
-        "owner", {"src": ["0", "1"]},
-        {"default.x.do": [S(deps=["src"])], "t.do": [S(deps=["src"], out="file")], "all.do": [S(deps=["a.x", "t"])]},
+        "owner", {"src": ["0", "1"], "hand": ["H"]},
+        {"default.x.do": [S(deps=["src"])], "t.do": [S(deps=["src"], out="file")], "all.do": [S(deps=["a.x", "t", "b.x"])]},
         ["all", "a.x", "t"], ["all", "a.x", "t"],
+        # b.x is the user's: a symbolic link to a hand-maintained file, under a name the default rule matches
+        symlinks={"b.x": "hand"},
         # non-initial seed states: a generated file the user edited and redo has already noticed (override flagged)
         prefixes=[[["ifchange", ["all"]], ["uwrite", "a.x", "U1\n"], ["ifchange", ["a.x"]]],
                   [["ifchange", ["all"]], ["ureplace", "t", "R\n"], ["redo", ["t"]]]])
@@ -77,7 +79,8 @@ def step_check(proj, i, obs):
 
 
 def alphabet(w, h):
-    ops = [["ifchange", ["a.x"]], ["ifchange", ["t"]], ["ifchange", ["all"]], ["redo", ["a.x"]], ["redo", ["t"]]]
+    ops = [["ifchange", ["a.x"]], ["ifchange", ["t"]], ["ifchange", ["all"]], ["redo", ["a.x"]], ["redo", ["t"]],
+           ["ifchange", ["b.x"]], ["redo", ["b.x"]]]
     cur = e1prop.cur_values(w, h)
     ops.append(["edit", "src", "1" if cur["src"] == "0" else "0"])
     for n in NAMES:
